@@ -11,6 +11,7 @@ RULE = ('same histories as C06 (v5, v9, IPFIX datagrams with 0..60 records per s
         'yields more messages than (len-24)/48, any datagram never more messages than bytes; sFlow datagrams (C09 generator) and '
         'mutants of their sample count / truncations: one message per flow or expanded flow sample, none for counter / drop '
         'samples or empty slots. '
+        'a third of the generated histories also run through the pipe AS cmd/goflow2 ASSEMBLES IT (Prometheus template system, Prometheus and panic wrappers around producer and decoder). '
         'non-trivial = at least one datagram produced a message; distinct by input')
 TRUSTED = ['Coq 8.16.1 kernel (coqc)', 'extraction + ocaml/main.ml glue',
            'Go harness harness/pipe.go, bin/engine.py, bin/pipefam.py',
